@@ -10,9 +10,39 @@ logging.disable(logging.CRITICAL)
 import vbuild
 
 
+def bind_defaults(e, obj, pool):
+    """Put the live config-default priors (created by the library for omitted arguments) into the pool slots the
+    generator reserved for them ({"t": "prior", "ref": k, "default": True})."""
+    from autofit.mapper.prior.abstract import Prior
+    import vclasses
+    t = e["t"]
+    if obj is None:
+        return
+    if t == "prior":
+        if e.get("default") and isinstance(obj, Prior):
+            pool[e["ref"]] = obj
+    elif t == "model":
+        for arg, kind, extra in vclasses.SIGNATURES[e["cls"]]:
+            sub = e["kw"][arg]
+            live = getattr(obj, "__dict__", {}).get(arg)
+            if kind == "tuple":
+                for j, m in enumerate(sub["members"]):
+                    if m.get("default") and live is not None:
+                        q = getattr(live, "__dict__", {}).get("%s_%d" % (arg, j))
+                        if isinstance(q, Prior):
+                            pool[m["ref"]] = q
+            else:
+                bind_defaults(sub, live, pool)
+    elif t == "coll":
+        for k, sub in e["items"]:
+            if sub["t"] != "copy":
+                bind_defaults(sub, getattr(obj, "__dict__", {}).get(str(k)), pool)
+
+
 def run_case(c):
     model, pool = vbuild.build(af, c["program"])
-    out = observe(model, pool, c["vec"], c["unit"])
+    bind_defaults(c["program"]["root"], model, pool)
+    out = observe(model, pool, c["vec"], c["unit"], c.get("pseed", 0))
     if "edit" in c:
         # history: freeze, query, unfreeze, re-parameterise, freeze again, query again
         e = c["edit"]
@@ -28,13 +58,75 @@ def run_case(c):
             parent = getattr(parent, k)
         setattr(parent, e["arg"], vbuild.build_expr(af, e["new"], pool))
         model.freeze()
-        out["phase2"] = observe(model, pool, c["vec2"], c["unit2"])
+        out["phase2"] = observe(model, pool, c["vec2"], c["unit2"], c.get("pseed", 0) + 1)
         model.unfreeze()
-        out["phase3"] = observe(model, pool, c["vec2"], c["unit2"])
+        out["phase3"] = observe(model, pool, c["vec2"], c["unit2"], c.get("pseed", 0) + 2)
     return out
 
 
-def observe(model, pool, vec_hex, unit_hex):
+def any_path_arguments(model, vec, seed):
+    """A dictionary path -> value that uses, for every parameter, a randomly chosen one of its advertised paths, in a
+    random parameter order, and sometimes first another path of the same parameter with a different value (the later
+    entry must win)."""
+    import random
+    rng = random.Random(seed)
+    pp = list(model.path_priors_tuples)
+    groups = []
+    for i, prior in enumerate(model.priors_ordered_by_id):
+        paths = [p for p, q in pp if q is prior]
+        chosen = rng.choice(paths)
+        others = [p for p in paths if p != chosen]
+        g = []
+        if others and rng.random() < 0.5:
+            g.append((rng.choice(others), vec[i] + 1.0))
+        g.append((chosen, vec[i]))
+        groups.append(g)
+    rng.shuffle(groups)
+    entries = []
+    for g in groups:
+        if len(g) == 2:
+            entries.insert(rng.randint(0, len(entries)), g[0])
+        entries.append(g[-1])
+    return entries
+
+
+def structure_checks(model):
+    """Harness-side assertions about facts the abstraction relies on."""
+    from autofit.mapper.prior.abstract import Prior
+    from autofit.mapper.prior.tuple_prior import TuplePrior
+    from autofit.mapper.prior.arithmetic.compound import CompoundPrior
+    import re
+    bad = []
+    seen = set()
+
+    def go(obj):
+        if id(obj) in seen or not hasattr(obj, "__dict__"):
+            return
+        seen.add(id(obj))
+        if isinstance(obj, CompoundPrior):
+            keys = [k for k in obj.__dict__ if not k.startswith("_") and k != "id"]
+            if set(keys) != {obj._left_name, obj._right_name}:
+                bad.append("compound keys %s != {%s, %s}" % (keys, obj._left_name, obj._right_name))
+            elif obj.__dict__[obj._right_name] is not obj._right or (
+                    obj._left_name != obj._right_name and obj.__dict__[obj._left_name] is not obj._left):
+                bad.append("compound operands are not the attributes named %s / %s" % (obj._left_name, obj._right_name))
+            elif obj._left_name == obj._right_name and obj._left is not obj._right:
+                bad.append("compound with one attribute name for two different operands")
+        if isinstance(obj, TuplePrior):
+            names = [k for k in obj.__dict__ if k != "id" and not k.startswith("_")]
+            if all(re.fullmatch(r".*_\d+", n) for n in names) and len({n.rsplit("_", 1)[0] for n in names}) <= 1:
+                got = [t[0] for t in obj.tuples]
+                expect = [n for n in sorted(names, key=lambda n: int(n.rsplit("_", 1)[1])) if n in got]
+                if got != expect:
+                    bad.append("TuplePrior.tuples order %s, by position %s" % (got, expect))
+        for k, v in list(obj.__dict__.items()):
+            if not k.startswith("_") and k not in ("cls",):
+                go(v)
+    go(model)
+    return bad
+
+
+def observe(model, pool, vec_hex, unit_hex, pseed=0):
     idmap = {p.id: i for i, p in enumerate(pool)}
     out = {"tree": vbuild.abstract_model(af, model, idmap)}
     out["id_order_ok"] = all(pool[i].id < pool[i + 1].id for i in range(len(pool) - 1))
@@ -54,6 +146,15 @@ def observe(model, pool, vec_hex, unit_hex):
     out["inst"] = guarded(lambda: vbuild.abstract_instance(af, model.instance_from_vector(vec)))
     out["inst_paths"] = guarded(lambda: vbuild.abstract_instance(
         af, model.instance_from_path_arguments({tuple(p): v for p, v in zip(model.unique_prior_paths, vec)})))
+    try:
+        entries = any_path_arguments(model, vec, pseed)
+        out["pv"] = [[list(map(str, p)), hexf(v)] for p, v in entries]
+        out["inst_paths_any"] = guarded(lambda: vbuild.abstract_instance(
+            af, model.instance_from_path_arguments({tuple(p): v for p, v in entries})))
+    except BaseException as e:  # noqa
+        out["pv"] = []
+        out["inst_paths_any"] = {"exc": exc_name(e), "msg": str(e)[:200]}
+    out["structure"] = structure_checks(model)
     out["vec_from_unit"] = guarded(lambda: [hexf(x) for x in model.vector_from_unit_vector(unit)])
     out["inst_unit"] = guarded(lambda: vbuild.abstract_instance(af, model.instance_from_unit_vector(unit)))
     if "ok" in out["vec_from_unit"]:
